@@ -38,8 +38,8 @@ EvalAll(cfg, q, trust) == /\ cfg.evalex /\ q.cmd = "eval" /\ q.secret = "right"
 PinReach(q, trust) == q.cmd = "pinauth" /\ q.secret = "right" /\ trust
 
 (* ---- the contract: first failing clause, or "ok" ------------------------------------------ *)
-Clause(cfg, fails, q, o) ==
-  \* safety: the conjunctions of the property
+\* Safety: the conjunctions the property states.  Only these can become a VIOLATION of the code.
+Safety(cfg, fails, q, o) ==
   IF o.eval_ran /\ ~EvalAll(cfg, q, MayTrust(q)) THEN "EvalOnlyIfAll"
   ELSE IF o.console /\ ~(cfg.evalex /\ q.cmd = "console" /\ MayTrust(q)) THEN "ConsoleOnlyTrustedHost"
   ELSE IF (o.auth # "none" \/ o.cookie_set \/ o.exhausted) /\ ~PinReach(q, MayTrust(q)) THEN "PinOnlyTrustedHost"
@@ -47,15 +47,24 @@ Clause(cfg, fails, q, o) ==
   ELSE IF o.auth = "true" /\ Locked(fails) /\ ~CookieOK(cfg, q) THEN "LockoutSticks"
   ELSE IF o.auth = "true" /\ ~CookieOK(cfg, q) /\ q.pin # "right" THEN "AuthOnlyWithPin"
   ELSE IF o.cookie_set /\ o.auth # "true" THEN "CookieOnlyIfAuth"
-  ELSE IF cfg.pin_on /\ o.exhausted /\ ~Locked(fails) THEN "ExhaustedOnlyWhenLocked"
-  \* the documented positive behaviour of the PIN flow (the debugger stays usable for its owner);
-  \* with the PIN switched off nothing is promised here (see DriftOnly in the trace judge)
+  ELSE "ok"
+
+\* Usability: the documented positive behaviour of the PIN flow (the debugger stays usable for its
+\* owner, and is not reported locked before the documented threshold).  The property does not state
+\* it - a stricter debugger keeps the property true - so on recorded executions a mismatch is model
+\* drift, never a verdict; the implementation-shaped MODEL is still required to satisfy it.
+Usability(cfg, fails, q, o) ==
+  IF cfg.pin_on /\ o.exhausted /\ ~Locked(fails) THEN "ExhaustedOnlyWhenLocked"
   ELSE IF cfg.pin_on /\ EvalAll(cfg, q, MustTrust(q)) /\ ~o.eval_ran THEN "EvalWhenAll"
   ELSE IF cfg.evalex /\ q.cmd = "console" /\ MustTrust(q) /\ ~o.console THEN "ConsoleWhenTrusted"
   ELSE IF /\ cfg.pin_on /\ PinReach(q, MustTrust(q))
           /\ (CookieOK(cfg, q) \/ (~Locked(fails) /\ q.pin = "right" /\ q.cookie # "wronghash"))
           /\ o.auth # "true" THEN "AuthWhenEntitled"
   ELSE "ok"
+
+\* what the model must satisfy: both
+Clause(cfg, fails, q, o) == LET s == Safety(cfg, fails, q, o) IN
+                            IF s # "ok" THEN s ELSE Usability(cfg, fails, q, o)
 
 \* contract state after the request, from what was observed
 ContractNext(cfg, fails, q, o) ==
